@@ -18,7 +18,7 @@ PROPS = {
     "C13": {
         "scenario": "S-LINK(clean)",
         "level": "exploration",
-        "runs": {"quick": 60000, "thorough": 3000000},
+        "runs": {"quick": 500000, "thorough": 10000000},
         "crash_clause": "C13.noerr",
         "rule": "one run = one seeded tape: link kind, schedule variant (eager / would-block at frame boundaries / inside frames / everywhere / one frame per poll / heavy), 1..8 (thorough 1..40) packets with drawn flags, addresses, sizes (incl. 256+ and 4096-frame packets) and byte patterns, sends interleaved with polls, every device read answered from the tape (would-block, short read, Interrupted); plus the enumerated single would-block sweep (12 size pairs x 3 links x every unit position x bursts 1,2,50). Non-trivial = at least one of: poll ended on a partial packet, would-block inside a frame, multi-frame packet, >=2 packets, packets still queued at a return, sweep case. Distinct = distinct event-log hashes among the non-trivial runs.",
         "state_measure": "abstract state = (receiver phase: idle | partial with bucketed units taken) x bucketed units in flight x last poll delivered; transitions between consecutive polls",
@@ -35,7 +35,7 @@ PROPS = {
 PROPS["C06"] = {
     "scenario": "S-LINK(hostile)",
     "level": "exploration",
-    "runs": {"quick": 90000, "thorough": 4000000},
+    "runs": {"quick": 1500000, "thorough": 20000000},
     "crash_clause": "C06.total",
     "rule": "one run = one seeded tape: link kind, polling schedule variant, 0..6 (thorough 0..40) episodes - each the frames of one source packet damaged by up to three faults (interrupted, dropped, duplicated, swapped, header rewritten, foreign frame interleaved, start frame retransmitted; bit flip, zero byte, truncated / extended / arbitrary body incl. length 0 and 255, lying or oversized declared data length, line noise; CAN: standard id, remote, arbitrary id, overrun with frame loss, multi-frame without id byte) - an optional stale partial packet matching the probes' device/type, then two complete probe packets back-to-back; optional receiver restarts. Non-trivial = a hostile prefix existed, or the first probe was dropped with an error, or a prefix frame/builder error was returned. Distinct = distinct event-log hashes among those.",
     "state_measure": "abstract state = bucketed frames taken x bucketed units in flight x last result class (ok / nothing / builder error / frame error / other)",
@@ -55,7 +55,7 @@ PROPS["C06"] = {
 PROPS["C19"] = {
     "scenario": "S-LINK(memory)",
     "level": "exploration",
-    "runs": {"quick": 6000, "thorough": 200000},
+    "runs": {"quick": 80000, "thorough": 600000},
     "crash_clause": None,
     "rule": "one run = one seeded tape: link kind, polling schedule variant, a long traffic history of 20..420 (thorough up to 20000) episodes as in C06 (clean packets incl. 256+/4096-frame ones, damaged packets, abandoned start frames announcing up to 4096 frames), 15% of runs clean-only; SUT-domain heap bytes measured after every poll with the returned value dropped first, and the largest single SUT allocation during each poll. Every run is non-trivial (it holds a partial packet between polls or crosses a boundary after a multi-frame packet); distinct = distinct event-log hashes.",
     "state_measure": "abstract state (sampled every 64 polls) = bucketed bytes held above fresh x bucketed announcement in flight x bucketed units in flight",
@@ -71,7 +71,7 @@ PROPS["C19"] = {
 PROPS["C14"] = {
     "scenario": "S-SEND",
     "level": "fault_enumeration",
-    "runs": {"quick": 60000, "thorough": 2000000},
+    "runs": {"quick": 1500000, "thorough": 20000000},
     "crash_clause": "C14.exact",
     "rule": "enumeration: for each packet of a fixed list (quick: 0,3,8,9,14,15,22 bytes; thorough: 40 sizes 0..70) and each link, after a dry run that counts the device calls, every single fault position: USART a would-block burst (1,2,50) before every byte; CAN a would-block burst before and a displaced-frame report at every transmit; serial port a hard error (3 kinds), every short-write size 1..14 and an Interrupted at every write call, an error (3 kinds) at every flush call. Exploration: seeded runs with random packets (up to 28672 bytes) and random combinations/rates of the same reactions. Non-trivial = a reaction actually fired or the packet is multi-frame. Distinct = distinct event-log hashes among those. The enumeration is exhaustive over its stated list only.",
     "state_measure": "not measured for this scenario (single call per run)",
@@ -91,7 +91,7 @@ PROPS["C14"] = {
 PROPS["C07"] = {
     "scenario": "S-BUILDER",
     "level": "exploration",
-    "runs": {"quick": 300000, "thorough": 10000000},
+    "runs": {"quick": 3000000, "thorough": 30000000},
     "crash_clause": "C07.accept",
     "rule": "one run = one seeded tape: 1..3 source packets (same/different device and error type, 1..13 frames, occasionally 256+ and thorough 4096 frames) fragmented by the library, a first frame offered to the constructor (source start frame, synthetic start frame announcing 1..4096 frames multi or single, or a non-start frame), then the remaining frames through a faulty channel (drop, duplicate, reorder, flag/address/start/multi/data-length rewrite, id rewritten to next+-1, +k, announced, announced+-1, random; foreign frames injected; late frames after completion), every add_frame compared with the acceptance model and the observers re-read after every step. Non-trivial = a frame was rejected, a packet completed, or the constructor refused a non-start frame. Distinct = distinct event-log hashes among those.",
     "state_measure": "abstract state = bucketed accepted count x bucketed remaining count x whether the offered frame was acceptable",
@@ -122,7 +122,7 @@ NODE_ASSUMPTIONS = COMMON_ASSUMPTIONS + [
 PROPS["C15"] = {
     "scenario": "S-NODE",
     "level": "exploration",
-    "runs": {"quick": 200000, "thorough": 8000000},
+    "runs": {"quick": 4000000, "thorough": 60000000},
     "crash_clause": "C15.fanout",
     "rule": "one run = one seeded tape: own address (incl. 0xffff, 0x0000), a history of 1..24 (thorough 1..80) operations - add (capture-all or not; plain or transmitting handler), remove (live / stale / never issued id), tick against a drawn link result (packet to own / broadcast / other address, data or error packet; nothing; each of 18 link error values; optionally a second packet queued behind), send - each registry operation followed by a reveal delivery on both paths. Every tick is judged: at most one packet taken, fan-out multiset, result, re-entrant transmissions. Non-trivial = a probe fired (broadcast delivery, capture-all-only delivery, link error, nothing, id reuse, re-entrant send, queued second packet ...). Distinct = distinct event-log hashes among those.",
     "state_measure": "abstract state = bucketed handler count x bucketed capture-all count x last operation kind",
@@ -145,7 +145,7 @@ PROPS["C17"] = dict(PROPS["C15"], **{
 PROPS["C18"] = {
     "scenario": "S-NODE(exchange)",
     "level": "exploration",
-    "runs": {"quick": 150000, "thorough": 6000000},
+    "runs": {"quick": 4000000, "thorough": 60000000},
     "crash_clause": "C18.first",
     "rule": "one run = one seeded tape: own address, 0..3 handlers, 1..2 (thorough 1..4) exchanges, each with: single- or multi-reply form, capture mode, one of the 16 event kinds as requested type, a request addressed to own / broadcast / another device, an optional send error, an incoming queue of 0..12 entries (valid encodings of the requested and of other kinds, error-flagged, wrongly sized, addressed to own / broadcast / others, explicit 'nothing received'), optionally ending in one of 18 link errors, optionally with later traffic behind the stopping point. The request routing is compared with an ordinary send of the same request on an identically built twin node; the result, the wait callback's count and position in the global event sequence, and the entries left on the link are compared with the model. Non-trivial = any exchange probe fired. Distinct = distinct event-log hashes among those.",
     "state_measure": "abstract state = requested kind x form x capture mode x bucketed queue length x (link error, timeout)",
@@ -160,7 +160,7 @@ PROPS["C18"] = {
 PROPS["C01"] = {
     "scenario": "S-E2E",
     "level": "exploration",
-    "runs": {"quick": 45000, "thorough": 2000000},
+    "runs": {"quick": 1000000, "thorough": 10000000},
     "crash_clause": "C01.ok",
     "rule": "one run = one seeded tape: link kind, polling schedule variant (as C13, on both directions), node addresses (distinct incl. 0xffff / 0x0000, or both broadcast), 0..4 handlers on B and 0..3 on A with drawn capture-all flags, in a third of the runs B's handlers answer with acknowledgements through the protocol handle they are given; 1..12 (thorough 1..60) events over all 16 kinds with arbitrary field values (data events up to the 4096-frame limit) addressed to the peer, broadcast or a third device; sends interleaved with ticks of both nodes, every device read answered from the tape. After every step every handler log must be a prefix of its expectation and the newest entry must decode (with the decoder of the sent kind) to the sent value; at quiescence logs equal expectations. Non-trivial = multi-frame event, several events in flight, mixed handler table, third-device event, traffic in both directions or a broadcast node address. Distinct = distinct event-log hashes among those.",
     "state_measure": "abstract state = bucketed units in flight A->B x B->A x last top-level action",
